@@ -7,4 +7,7 @@ INVARIANT Cl_FitIsBestFit
 INVARIANT Cl_NI_PermFollowsFit
 INVARIANT Cl_NI_Step0
 INVARIANT Cl_NI_Len
+INVARIANT Ref_NI_Grid
+INVARIANT Ref_NI_FluxAtPoint
+INVARIANT Ref_NI_Outcome
 CHECK_DEADLOCK FALSE
